@@ -1,8 +1,11 @@
-"""C03 — alignment operations equal the same operations on the gapped strings.
+"""C03 — alignment and collection operations equal the same operations on the (gapped) strings.
 
 Oracle: an ordered dict name -> gapped Python string on which every operation
-is re-implemented from its docstring.  The same history is applied to the
-annotatable ``Alignment`` and the array-backed ``ArrayAlignment``.
+is re-implemented from its docstring.  Sub-check ``histories`` applies the same
+history to the annotatable ``Alignment`` and the array-backed ``ArrayAlignment``;
+sub-check ``collections`` applies histories to the unaligned ``SequenceCollection``
+of the old style (cogent3.core.alignment) and of the new style
+(cogent3.core.new_alignment, ``make_unaligned_seqs(..., new_type=True)``).
 """
 
 from __future__ import annotations
@@ -25,13 +28,33 @@ RULE = (
     "a final degap. The history is applied to both alignment classes and to the row model; after each step names, length, "
     "to_dict, gapped and degapped rows are compared, and read-only methods of the result are compared with a fresh object built "
     "from the result's rows. Non-trivial = history of >= 2 operations on the annotatable class containing a slice or rc followed "
-    "by a column operation, or a slice boundary inside a gap run; distinct = distinct case encodings."
+    "by a column operation, or a slice boundary inside a gap run; distinct = distinct case encodings. "
+    "Sub-check collections: a case is a generated unaligned collection (2-5 named rows in arbitrary name order, each 0-14 symbols, "
+    "ragged or equal length, DNA/RNA/protein with '-', '?' and degenerate symbols, duplicated rows with raised probability) and a "
+    "history of 1-6 operations drawn from rc/reverse_complement, take_seqs (list or single string, negate, selections that keep "
+    "nothing), take_seqs_if (by length / by containing a character, negate), rename_seqs (rotation of the existing names or fresh "
+    "names, always injective), to_dna/to_rna/to_moltype, degap, add_seqs (new rows as collection or dict, before_name/after_name, "
+    "a clashing name with probability 1/8), pad_seqs (default, exact, longer, too short), copy/deepcopy, and conversion to an "
+    "alignment of either class (factory on to_dict()) and back with degap when the rows have equal non-zero length. The history is "
+    "applied to the old-style and to the new-style collection and to the row model; after every step names (order), num_seqs, "
+    "to_dict (content and key order), get_lengths, is_ragged, moltype label and str(get_seq(name)) of every row are compared, the "
+    "receiver of every operation must still hold its rows, and 15 read-only calls on the final object are compared with the same "
+    "calls on a collection built from the model rows. Non-trivial = on either style an executed rc or moltype conversion is "
+    "followed by a further executed operation (the reversal / new alphabet has to be carried along)."
 )
 ASSUMPTIONS = [
     "slice bounds are in range (-len <= a < b <= len) and unit stride: the annotatable class documents NotImplementedError for strides; out-of-range slicing of sequences is C01",
     "omit_gap_pos / no_degenerates return None when nothing remains (documented); the history ends there",
     "gap characters for omit_gap_pos are the moltype's gaps ('-' and '?'); get_degapped_relative_to and no_degenerates(allow_gap) use '-' only (as implemented and pinned by tests)",
     "sample is driven through its randint/permutation arguments with indices chosen by the generator",
+    "collections: degap removes '-' and '?' on both styles (test_degap / test_sequence_collection_degap: 'ATGRY?' -> 'ATGRY'); the same holds for Alignment.degap used on the way back from an alignment",
+    "collections: get_lengths() counts canonical characters only (docstring; test_get_lengths: 'CCCGGG--NN' -> 6); when no row holds any canonical character both styles raise ValueError('Must provide data') from the profile constructor, on the result and on a fresh object alike - allowed, recorded as a coverage class, noted in the findings file as an observation",
+    "collections: take_seqs keeps the order of the given names, negate keeps the collection order (tests of both styles); a selection that keeps nothing returns {} on the old style (source comment 'safe value', test_take_seqs_if) and raises ValueError on the new style (test_sequence_collection_take_seqs_empty_names, ..._take_seqs_if); unknown or repeated names are not generated (KeyError on the old style, silently dropped on the new style, neither documented)",
+    "collections: rename maps are injective (a clash silently drops rows on both styles; undocumented, outside the domain)",
+    "collections: add_seqs - the old style is given a collection of its own class (its docstring says 'same class as self or coerceable', a dict of strings fails an assert) and honours before_name/after_name (before_name wins when both are given, docstring); the new style has no position arguments, so there the rows are appended and the model of that style appends; a clashing name must raise ValueError on the new style (test_sequence_collection_add_seqs_duplicate_raises) and is skipped on the old style (ValueError('duplicate names') comes from the constructor, add_seqs itself documents nothing)",
+    "collections: pad_seqs pads with '-' at the end of the displayed row (tests of both styles) and raises ValueError for pad_length below the longest row (tests of both styles)",
+    "collections: copy/deepcopy exist on the old style only; rc and DNA/RNA conversion are generated for nucleic acid collections only (protein rc raises TypeError on the old style and merely reverses on the new style - not part of the property); to_dna on DNA / to_rna on RNA is generated and must leave the rows alone (both styles return self)",
+    "collections: the new style offers no alignment class through make_aligned_seqs, so 'to an alignment and back' goes through the old-style Alignment/ArrayAlignment built from to_dict() for both styles, and the new-style collection is rebuilt from the degapped rows",
 ]
 
 ALPH = {
@@ -454,22 +477,442 @@ def _brief(op):
     return k + "(" + ",".join(f"{a}={v}" for a, v in op.items() if a not in ("op", "perm")) + ")"
 
 
+# ====================================================================== collections
+# Second sub-check: unaligned SequenceCollection, old style (cogent3.core.alignment) and new style
+# (cogent3.core.new_alignment).  A case keeps rows / added rows / rename maps as lists of pairs because the
+# runner normalises cases through JSON with sorted keys (row order matters here).
+
+C_NAMES = ["s0", "s1", "s2", "s3", "s4", "a", "B", "x1"]
+C_FRESH = ["n0", "n1", "N2", "z", "r0", "R1", "q_2"]
+C_STYLES = ("old", "new")
+
+
+def c_pred(pred):
+    """predicate over a sequence object / a model string (both support len() and str())"""
+    if pred["kind"] == "minlen":
+        k = pred["k"]
+        return lambda x: len(x) >= k
+    if pred["kind"] == "has":
+        ch = pred["ch"]
+        return lambda x: ch in str(x)
+    raise ValueError(pred)
+
+
+def cm_apply(rows: dict, mt: str, op: dict, style: str):
+    """Model of one collection operation.
+
+    returns (status, rows, mt) with status
+      'ok'     the operation returns a new collection holding ``rows``
+      'empty'  a selection that keeps nothing (old style documents {} as the result, new style ValueError)
+      'error'  the library documents ValueError for this input
+      'skip'   the class does not offer the operation
+    """
+    kind = op["op"]
+    names = list(rows)
+    if kind == "rc":
+        return "ok", {n: comp(s, mt)[::-1] for n, s in rows.items()}, mt
+    if kind == "take_seqs":
+        sel = [op["names"]] if isinstance(op["names"], str) else list(op["names"])
+        keep = [n for n in names if n not in sel] if op["negate"] else sel
+        if not keep:
+            return "empty", rows, mt
+        return "ok", {n: rows[n] for n in keep}, mt
+    if kind == "take_seqs_if":
+        f = c_pred(op["pred"])
+        keep = [n for n in names if bool(f(rows[n])) != op["negate"]]
+        if not keep:
+            return "empty", rows, mt
+        return "ok", {n: rows[n] for n in keep}, mt
+    if kind == "rename":
+        m = dict(op["map"])
+        return "ok", {m.get(n, n): s for n, s in rows.items()}, mt
+    if kind == "conv":
+        to = op["to"]
+        if to == "rna":
+            return "ok", {n: s.replace("T", "U") for n, s in rows.items()}, "rna"
+        return "ok", {n: s.replace("U", "T") for n, s in rows.items()}, "dna"
+    if kind == "degap":
+        return "ok", {n: s.replace("-", "").replace("?", "") for n, s in rows.items()}, mt
+    if kind == "add_seqs":
+        other = dict(op["rows"])
+        if any(n in rows for n in other):
+            # name clash: ValueError is pinned for the new style only
+            return ("error" if style == "new" else "skip"), rows, mt
+        index = len(names)
+        if style == "old":
+            # docstring: before_name wins when both are given
+            if op.get("before") is not None:
+                index = names.index(op["before"])
+            elif op.get("after") is not None:
+                index = names.index(op["after"]) + 1
+        order = names[:index] + list(other) + names[index:]
+        merged = {**rows, **other}
+        return "ok", {n: merged[n] for n in order}, mt
+    if kind == "pad_seqs":
+        longest = max(len(r) for r in rows.values())
+        L = op["pad"] if op["pad"] is not None else longest
+        if L < longest:
+            return "error", rows, mt
+        return "ok", {n: r + "-" * (L - len(r)) for n, r in rows.items()}, mt
+    if kind in ("copy", "deepcopy"):
+        if style == "new":
+            return "skip", rows, mt
+        return "ok", dict(rows), mt
+    if kind == "to_aligned":
+        lens = {len(r) for r in rows.values()}
+        if len(lens) != 1 or 0 in lens:
+            return "skip", rows, mt
+        return "ok", {n: s.replace("-", "").replace("?", "") for n, s in rows.items()}, mt
+    raise ValueError(kind)
+
+
+def c_pick(draw, items, k=None):
+    """the first k elements of a random order of items, built from bounded integer draws (st.permutations rejects
+    most byte buffers handed to fuzz_one_input, this construction accepts all of them)"""
+    items = list(items)
+    k = len(items) if k is None else k
+    out = []
+    for _ in range(k):
+        out.append(items.pop(draw(st.integers(0, len(items) - 1))))
+    return out
+
+
+@st.composite
+def crow_st(draw, mt, n):
+    canon, degen, gap, q = ALPH[mt]
+    weights = canon * 6 + degen + gap * 3 + q
+    return "".join(draw(st.lists(st.sampled_from(weights), min_size=n, max_size=n)))
+
+
+@st.composite
+def collections(draw):
+    mt = draw(st.sampled_from(["dna", "dna", "rna", "protein"]))
+    nrows = draw(st.integers(2, 5))
+    names = c_pick(draw, C_NAMES, nrows)
+    if draw(st.sampled_from([False, False, True])):
+        L = draw(st.integers(1, 14))
+        lens = [L] * nrows
+    else:
+        lens = [draw(st.integers(0, 14)) for _ in names]
+    rows = {n: draw(crow_st(mt, k)) for n, k in zip(names, lens)}
+    if draw(st.integers(0, 3)) == 0:  # identical rows (get_identical_sets)
+        i = draw(st.integers(0, nrows - 2))
+        rows[names[nrows - 1]] = rows[names[i]]
+    depth = draw(st.integers(1, 6))
+    ops = []
+    cur, cur_mt = rows, mt
+    for _ in range(depth):
+        names = list(cur)
+        lens = [len(r) for r in cur.values()]
+        kinds = ["take_seqs", "take_seqs", "take_seqs_if", "take_seqs_if", "rename", "rename", "degap", "add_seqs", "add_seqs",
+                 "pad_seqs", "pad_seqs", "copy", "deepcopy"]
+        if cur_mt in ("dna", "rna"):
+            kinds += ["rc", "rc", "rc", "rc", "conv", "conv"]
+        if len(set(lens)) == 1 and lens[0] > 0:
+            kinds += ["to_aligned"] * 4
+        kind = draw(st.sampled_from(kinds))
+        op = {"op": kind}
+        if kind == "rc":
+            op["via"] = draw(st.sampled_from(["rc", "reverse_complement"]))
+        elif kind == "take_seqs":
+            k = draw(st.integers(1, len(names)))
+            sel = c_pick(draw, names, k)
+            neg = draw(st.booleans())
+            if k == 1 and draw(st.booleans()):
+                sel = sel[0]  # a single name may be given as a string
+            op.update(names=sel, negate=neg)
+        elif kind == "take_seqs_if":
+            if draw(st.booleans()):
+                pred = {"kind": "minlen", "k": draw(st.sampled_from(sorted(set(lens)) + [max(lens) + 1]))}
+            else:
+                canon, degen, gap, q = ALPH[cur_mt]
+                pred = {"kind": "has", "ch": draw(st.sampled_from(canon[:4] + gap + q + degen[-1]))}
+            op.update(pred=pred, negate=draw(st.booleans()))
+        elif kind == "rename":
+            if draw(st.booleans()):  # rotate the existing names
+                m = [[n, names[(i + 1) % len(names)]] for i, n in enumerate(names)]
+            else:
+                pool = [n for n in C_FRESH if n not in cur]
+                k = draw(st.integers(1, min(len(names), len(pool))))
+                src = c_pick(draw, names, k)
+                dst = c_pick(draw, pool, k)
+                m = [[a, b] for a, b in zip(src, dst)]
+            op.update(map=m)
+        elif kind == "conv":
+            to = draw(st.sampled_from(["rna", "dna"]))
+            op.update(to=to, via=draw(st.sampled_from(["to_" + to, "to_moltype"])))
+        elif kind == "add_seqs":
+            pool = [n for n in C_NAMES + C_FRESH if n not in cur]
+            if len(names) >= 7 or not pool:
+                continue
+            k = draw(st.integers(1, min(2, len(pool))))
+            new_names = c_pick(draw, pool, k)
+            clash = draw(st.integers(0, 7)) == 0
+            if clash:
+                new_names[-1] = draw(st.sampled_from(names))
+            other = [[n, draw(crow_st(cur_mt, draw(st.integers(0, 14))))] for n in new_names]
+            where = draw(st.sampled_from(["end", "end", "before", "after", "both"]))
+            op.update(
+                rows=other,
+                before=draw(st.sampled_from(names)) if where in ("before", "both") else None,
+                after=draw(st.sampled_from(names)) if where in ("after", "both") else None,
+                as_dict=draw(st.booleans()),
+            )
+        elif kind == "pad_seqs":
+            longest = max(lens)
+            mode = draw(st.sampled_from(["none", "none", "exact", "more", "more", "less"]))
+            pad = None
+            if mode == "exact":
+                pad = longest
+            elif mode == "more":
+                pad = longest + draw(st.integers(1, 4))
+            elif mode == "less":
+                if longest == 0:
+                    continue
+                pad = draw(st.integers(0, longest - 1))
+            op.update(pad=pad)
+        elif kind == "to_aligned":
+            op.update(array=draw(st.booleans()))
+        ops.append(op)
+        status, new, new_mt = cm_apply(cur, cur_mt, op, "old")
+        if status == "ok":
+            cur, cur_mt = new, new_mt
+    return {"mt": mt, "rows": [[n, r] for n, r in rows.items()], "ops": ops}
+
+
+def cbuild(rows, mt, style):
+    from cogent3 import make_unaligned_seqs
+
+    return make_unaligned_seqs(dict(rows), moltype=mt, new_type=(style == "new"))
+
+
+def cr_apply(coll, op, mt, style):
+    """the same operation on a real collection"""
+    kind = op["op"]
+    if kind == "rc":
+        return getattr(coll, op["via"])()
+    if kind == "take_seqs":
+        return coll.take_seqs(op["names"], negate=op["negate"])
+    if kind == "take_seqs_if":
+        return coll.take_seqs_if(c_pred(op["pred"]), negate=op["negate"])
+    if kind == "rename":
+        m = dict(op["map"])
+        return coll.rename_seqs(lambda n: m.get(n, n))
+    if kind == "conv":
+        if op["via"] == "to_moltype":
+            return coll.to_moltype(op["to"])
+        return getattr(coll, op["via"])()
+    if kind == "degap":
+        return coll.degap()
+    if kind == "add_seqs":
+        other = dict(op["rows"])
+        if style == "old":
+            # the old style wants an object of its own class
+            kw = {}
+            if op.get("before") is not None:
+                kw["before_name"] = op["before"]
+            if op.get("after") is not None:
+                kw["after_name"] = op["after"]
+            return coll.add_seqs(cbuild(other, mt, "old"), **kw)
+        return coll.add_seqs(other if op["as_dict"] else cbuild(other, mt, "new"))
+    if kind == "pad_seqs":
+        return coll.pad_seqs(pad_length=op["pad"])
+    if kind == "copy":
+        return coll.copy()
+    if kind == "deepcopy":
+        return coll.deepcopy()
+    raise ValueError(kind)
+
+
+def c_lengths(x):
+    d = x.to_dict() if hasattr(x, "to_dict") else dict(x)
+    return {str(k): int(v) for k, v in d.items()}
+
+
+def c_observe(s: Soft, tag, coll, rows, mt, what):
+    """names (order), num_seqs, to_dict, get_lengths, is_ragged, moltype and every get_seq of a collection
+    against the model rows; False when names or to_dict disagree (the history stops there)"""
+    names = list(rows)
+    ok, got_names = s.call(tag + "/names", lambda: list(coll.names))
+    if ok and not s.eq(got_names, names, tag + "/names", what):
+        return False
+    ok, n = s.call(tag + "/num_seqs", lambda: coll.num_seqs)
+    if ok:
+        s.eq(n, len(names), tag + "/num_seqs", what)
+    ok, d = s.call(tag + "/to_dict", coll.to_dict)
+    if not ok:
+        return False
+    if not s.eq(d, dict(rows), tag + "/to_dict", what):
+        return False
+    s.eq(list(d), names, tag + "/to_dict-order", what)
+    canon = set(ALPH[mt][0])
+    # get_lengths() counts canonical characters only (docstring, test_get_lengths); when no row holds a single
+    # canonical character the count table has no column and both styles raise ValueError("Must provide data")
+    # from the profile constructor - the same on a fresh object, so not a statement of the property
+    has_canon = any(c in canon for r in rows.values() for c in r)
+    ok, gl = s.call(tag + "/get_lengths", lambda: c_lengths(coll.get_lengths()), allowed=() if has_canon else (ValueError,))
+    if ok:
+        s.eq(gl, {n: sum(c in canon for c in r) for n, r in rows.items()}, tag + "/get_lengths", what)
+    elif not has_canon:
+        s.cls("coll:get_lengths-undefined(no canonical character)")
+    ok, rg = s.call(tag + "/is_ragged", coll.is_ragged)
+    if ok:
+        s.eq(bool(rg), len({len(r) for r in rows.values()}) > 1, tag + "/is_ragged", what)
+    ok, lab = s.call(tag + "/moltype", lambda: coll.moltype.label)
+    if ok:
+        s.eq(lab, mt, tag + "/moltype", what)
+    for nme in names:
+        ok, g = s.call(tag + "/get_seq", lambda: str(coll.get_seq(nme)))
+        if ok:
+            s.eq(g, rows[nme], tag + "/get_seq", f"{what}: row {nme}")
+    return True
+
+
+def c_receiver(s: Soft, tag, coll, rows, what):
+    """the receiver of an operation that returns a new object still holds its rows"""
+    ok, got = s.call(tag + "/receiver-changed", lambda: (list(coll.names), coll.to_dict()))
+    if ok:
+        s.check(got[0] == list(rows) and got[1] == dict(rows), tag + "/receiver-changed", f"{what}: receiver now {got[1]} (names {got[0]}), was {dict(rows)}")
+
+
+CMETHODS = [
+    ("counts", {"include_ambiguity": True, "allow_gap": True}), ("counts_per_seq", {}), ("counts_per_seq", {"motif_length": 2}),
+    ("probs_per_seq", {}), ("get_motif_probs", {}), ("get_lengths", {"include_ambiguity": True, "allow_gap": True}),
+    ("get_identical_sets", {}), ("get_identical_sets", {"mask_degen": True}), ("get_ambiguous_positions", {}),
+    ("has_terminal_stop", {}), ("trim_stop_codons", {}), ("get_translation", {"incomplete_ok": True}),
+    ("to_fasta", {"block_size": 4}), ("to_phylip", {}), ("__str__", {}),
+]
+
+
+def c_method_differential(s: Soft, tag, coll, rows, mt, style, what):
+    ok, fresh = s.call(tag + "/fresh", cbuild, rows, mt, style)
+    if not ok:
+        return
+    for name, kw in CMETHODS:
+        res = []
+        for obj in (coll, fresh):
+            try:
+                res.append(("ok", norm(getattr(obj, name)(**kw))))
+            except Exception as e:  # noqa: BLE001
+                res.append(("raises", type(e).__name__))
+        if res[0] != res[1]:
+            s.fail(f"{tag}/method:{name}", f"{what}: {name}({kw}) on result -> {str(res[0])[:200]}; on fresh object with the same rows -> {str(res[1])[:200]}")
+
+
+def _cbrief(op):
+    k = op["op"]
+    if k == "add_seqs":
+        return f"add_seqs({dict(op['rows'])},before={op.get('before')},after={op.get('after')},as_dict={op.get('as_dict')})"
+    if k == "rename":
+        return f"rename({dict(op['map'])})"
+    return k + "(" + ",".join(f"{a}={v}" for a, v in op.items() if a != "op") + ")"
+
+
+C_STATEFUL = ("take_seqs", "take_seqs_if", "rename", "conv", "add_seqs", "pad_seqs", "degap", "copy", "deepcopy", "to_aligned")
+
+
+def exec_collections(case) -> Soft:
+    from cogent3 import make_aligned_seqs
+
+    s = Soft("C03/")
+    mt0 = case["mt"]
+    rows0 = {n: r for n, r in case["rows"]}
+    if len({len(r) for r in rows0.values()}) > 1:
+        s.cls("coll:ragged-input")
+    s.cls("coll:" + mt0)
+    nontriv = []
+    for style in C_STYLES:
+        base = f"coll/{style}"
+        ok, coll = s.call(base + "/construct", cbuild, rows0, mt0, style)
+        if not ok:
+            continue
+        rows, mt = rows0, mt0
+        if not c_observe(s, base + "/fresh", coll, rows, mt, f"fresh {style}-style collection {rows0}"):
+            continue
+        hist = []
+        done = []
+        for op in case["ops"]:
+            kind = op["op"]
+            status, new_rows, new_mt = cm_apply(rows, mt, op, style)
+            tag = f"{base}/{kind}"
+            what = f"{style}-style history {hist + [_cbrief(op)]} from {rows0} ({mt0})"
+            if status == "skip":
+                s.cls(f"coll-op-skipped:{style}:{kind}")
+                continue
+            if kind == "add_seqs" and style == "new" and (op.get("before") is not None or op.get("after") is not None):
+                s.cls("coll-op:new:add_seqs-appends(no position arguments)")
+            if kind == "to_aligned":
+                # collection -> alignment (factory on the collection's to_dict) -> degap back to a collection
+                ok, aln = s.call(tag, lambda: make_aligned_seqs(coll.to_dict(), moltype=mt, array_align=op["array"]))
+                if not ok:
+                    break
+                ok, d = s.call(tag + "/aligned-to_dict", aln.to_dict)
+                if ok:
+                    s.eq(d, dict(rows), tag + "/aligned-to_dict", what)
+                    s.eq(list(d), list(rows), tag + "/aligned-names", what)
+                ok, res = s.call(tag + "/degap", aln.degap)
+                if ok and style == "new":
+                    ok, res = s.call(tag + "/rebuild", lambda: cbuild(res.to_dict(), mt, "new"))
+            else:
+                allowed = (ValueError,) if (status == "error" or (status == "empty" and style == "new")) else ()
+                ok, res = s.call(tag, cr_apply, coll, op, mt, style, allowed=allowed)
+            c_receiver(s, tag, coll, rows, what)
+            if status == "error":
+                s.check((not ok) and isinstance(res, ValueError), tag + "/expected-ValueError", f"{what}: got {res!r}"[:400])
+                if ok or not isinstance(res, ValueError):
+                    break
+                s.cls(f"coll-op:{kind}:documented-ValueError")
+                continue
+            if status == "empty":
+                if style == "old":
+                    good = ok and isinstance(res, dict) and not res
+                else:
+                    good = (not ok) and isinstance(res, ValueError)
+                s.check(good, tag + "/empty-selection", f"{what}: nothing selected, got {res!r}"[:400])
+                if not good:
+                    break
+                s.cls(f"coll-op:{kind}:empty-selection")
+                continue
+            if not ok:
+                break
+            hist.append(_cbrief(op))
+            if res is None or isinstance(res, dict):
+                s.fail(tag + "/no-collection", f"{what}: returned {res!r}, model has {new_rows}")
+                break
+            if not c_observe(s, tag, res, new_rows, new_mt, what):
+                break
+            coll, rows, mt = res, new_rows, new_mt
+            done.append(kind)
+            s.cls(f"coll-op:{kind}")
+        if coll is not None and rows:
+            c_method_differential(s, f"{base}/final", coll, rows, mt, style, f"{style}-style after {hist} from {rows0} ({mt0})")
+        # non-trivial: a reversal or a moltype change is followed by an operation that has to carry it along
+        nt = any(k in ("rc", "conv") and any(j in C_STATEFUL or j == "rc" for j in done[i + 1 :]) for i, k in enumerate(done))
+        if nt:
+            s.cls("coll:rc/conv-then-operation")
+        nontriv.append(nt)
+    s.nontrivial = any(nontriv)
+    return s
+
+
+
 SUBS = [
     Sub("histories", exec_history, strategy=histories(), quick=1600, thorough=320_000, shards_quick=16),
+    Sub("collections", exec_collections, strategy=collections(), quick=1600, thorough=160_000, shards_quick=16),
 ]
 
 KNOWN_PREDICATES = {}
 
 # thorough tier: coverage-guided campaigns (atheris/libFuzzer mutating the bytes Hypothesis draws from)
 FUZZ = {
-    "subs": ['histories'],
-    "targets": ['cogent3.core.alignment', 'cogent3.core.sequence'],
+    "subs": ['histories', 'collections'],
+    "targets": ['cogent3.core.alignment', 'cogent3.core.sequence', 'cogent3.core.new_alignment'],
     "execs_thorough": 40_000, "jobs_thorough": 4, "execs_quick": 1000, "jobs_quick": 2,
 }
 
 META = {
-    "technique": "Hypothesis-generated operation histories applied to both alignment classes and to a dict-of-gapped-strings model; method differential result vs fresh object",
-    "level_text": "A few thousand generated histories per run (slicing inside gap runs, rc, row/column selection, gap and degenerate filters, degapping relative to a row, index-driven sampling, concatenation, class and moltype conversion) are executed on the annotatable and the array-backed class and compared after every step with plain string operations; 18 read-only methods of the final object are compared with a freshly built object.",
-    "level_note": "Trusts the row model (about 80 lines). Strides and out-of-range slices are outside the domain; generic filtered() predicates are covered through omit_gap_pos/no_degenerates.",
+    "technique": "Hypothesis-generated operation histories applied to both alignment classes (sub-check histories) and to the old-style and new-style unaligned SequenceCollection (sub-check collections) and to a dict-of-(gapped)-strings model; method differential result vs fresh object",
+    "level_text": "A few thousand generated histories per run (slicing inside gap runs, rc, row/column selection, gap and degenerate filters, degapping relative to a row, index-driven sampling, concatenation, class and moltype conversion) are executed on the annotatable and the array-backed class and compared after every step with plain string operations; 18 read-only methods of the final object are compared with a freshly built object. A second set of a few thousand histories (rc, take_seqs, take_seqs_if, rename_seqs, DNA/RNA conversion, degap, add_seqs with positions, pad_seqs, copy/deepcopy, to an alignment and back) runs on ragged unaligned collections of the old and the new style with names, num_seqs, to_dict, get_lengths, is_ragged, moltype and every get_seq compared after each step, the receiver checked for being unchanged, and 15 read-only calls compared with a fresh collection.",
+    "level_note": "Trusts the row models (about 80 lines for alignments, about 70 for collections). Collections: unknown/repeated names in take_seqs, non-injective renamers, protein rc, annotation databases and the names setter of the new style are outside the driven domain. Strides and out-of-range slices are outside the domain; generic filtered() predicates are covered through omit_gap_pos/no_degenerates.",
     "design_ref": "DESIGN.md section 1, C03",
 }
